@@ -248,16 +248,38 @@ def ensure_built(log):
     finally:
         fcntl.flock(lock, fcntl.LOCK_UN)
 
+def _strip_coq_comments(txt):
+    out = []; d = 0; i = 0; n = len(txt)
+    while i < n:
+        if txt.startswith('(*', i):
+            d += 1; i += 2; continue
+        if txt.startswith('*)', i) and d > 0:
+            d -= 1; i += 2; continue
+        if d == 0 or txt[i] == '\n':
+            out.append(txt[i])
+        i += 1
+    return ''.join(out)
+
 def scan_forbidden():
+    """forbidden words anywhere in the development, and Variable/Hypothesis/Context declarations
+    outside a Section (each of which would declare an axiom)"""
     hits = []
     for root, _, files in os.walk(COQ):
         for f in files:
             if f.endswith('.v') and not f.startswith('_goal'):
                 p = os.path.join(root, f)
-                txt = open(p).read()
-                txt = re.sub(r'\(\*.*?\*\)', '', txt, flags=re.S)
+                txt = _strip_coq_comments(open(p).read())
                 for m in FORBIDDEN.finditer(txt):
                     hits.append('%s: %s' % (os.path.relpath(p, COQ), m.group(0)))
+                stack = []
+                for ln, line in enumerate(txt.split('\n'), 1):
+                    m = re.match(r'\s*(Section|Module(?:\s+Type)?)\s+([A-Za-z0-9_\']+)', line)
+                    if m and ':=' not in line:
+                        stack.append(m.group(1))
+                    elif re.match(r'\s*End\s+[A-Za-z0-9_\']+\s*\.', line) and stack:
+                        stack.pop()
+                    if re.match(r'\s*(Variable|Variables|Hypothesis|Hypotheses|Context)\b', line) and 'Section' not in stack:
+                        hits.append('%s:%d: %s outside a Section' % (os.path.relpath(p, COQ), ln, line.strip()[:50]))
     return hits
 
 def proof_step(pid, rundir, extra_files=()):
